@@ -39,6 +39,7 @@ macro_rules
       | exact PresAt.genRng $ih _ _ _ _ _ _ _ _ _ _ _
       | exact Pres.sliceOf _ _
       | exact Pres.pipeArgs _
+      | exact Pres.dimValue _ _
       | exact Pres.rangeDeref _ _
       | exact Pres.sliceDeref _ _
       | exact Pres.rngLoopInit _
